@@ -359,6 +359,135 @@ func ownTemplates() []chainx.Tpl {
 				},
 			)
 		}},
+		{"no-witness", func(w *chainx.World) (txs, error) { // operations on somebody else's account: all must return false and move nothing
+			return seq(
+				func() (*transaction.Transaction, error) {
+					return call(w, []int{2}, gas, neoH, "transfer", acc(1), acc(2), int64(1000), nil)
+				},
+				func() (*transaction.Transaction, error) {
+					return call(w, []int{2}, gas, gasH, "transfer", acc(1), acc(2), int64(gas), nil)
+				},
+				func() (*transaction.Transaction, error) { return call(w, []int{2}, gas, neoH, "vote", acc(1), pub(1)) },
+				func() (*transaction.Transaction, error) { return call(w, []int{3}, gas, neoH, "vote", acc(2), nil) },
+				func() (*transaction.Transaction, error) {
+					return call(w, []int{2}, gas, neoH, "unregisterCandidate", pub(1))
+				},
+				func() (*transaction.Transaction, error) {
+					return call(w, []int{3}, gas, notH, "lockDepositUntil", acc(2), int64(w.N.Height()+40))
+				},
+				func() (*transaction.Transaction, error) {
+					return call(w, []int{3}, gas, notH, "withdraw", acc(2), acc(3))
+				},
+			)
+		}},
+		{"bad-args", func(w *chainx.World) (txs, error) { // overdraft, negative amount, balance check of an account without an item, direct payment callbacks
+			return seq(
+				func() (*transaction.Transaction, error) { // more GAS than owned: false
+					return call(w, []int{3}, gas, gasH, "transfer", acc(3), acc(4), int64(999999*gas), nil)
+				},
+				func() (*transaction.Transaction, error) { // more NEO than owned: false
+					return call(w, []int{3}, gas, neoH, "transfer", acc(3), acc(4), int64(99999999), nil)
+				},
+				func() (*transaction.Transaction, error) { // negative amount: fault
+					return call(w, []int{3}, gas, gasH, "transfer", acc(3), acc(4), int64(-1), nil)
+				},
+				func() (*transaction.Transaction, error) { // self-transfer of an account that owns nothing (account 4 pays): false
+					return call(w, []int{4, 7}, gas, gasH, "transfer", acc(7), acc(7), int64(5), nil)
+				},
+				func() (*transaction.Transaction, error) { // NEO of an account that owns none: false
+					return call(w, []int{4, 7}, gas, neoH, "transfer", acc(7), acc(4), int64(1), nil)
+				},
+				func() (*transaction.Transaction, error) { // payment callbacks called directly: fault
+					return call(w, []int{3}, gas, neoH, "onNEP17Payment", acc(3), int64(1000*gas), pub(3))
+				},
+				func() (*transaction.Transaction, error) {
+					return call(w, []int{3}, gas, notH, "onNEP17Payment", acc(3), int64(10*gas), []any{nil, int64(w.N.Height() + 10)})
+				},
+				func() (*transaction.Transaction, error) { // registration fee does not fit into the system fee: fault
+					return call(w, []int{3}, 5*gas, neoH, "registerCandidate", pub(3))
+				},
+				func() (*transaction.Transaction, error) { // NEP-27 registration of a key the payer does not own: fault, GAS stays
+					return call(w, []int{3}, 3*gas, gasH, "transfer", acc(3), neoH, int64(1000*gas), pub(4))
+				},
+			)
+		}},
+		{"gas-per-block7", func(w *chainx.World) (txs, error) { // generation rate change: rewards and claims over a rate boundary
+			return seq(func() (*transaction.Transaction, error) {
+				return w.N.MakeTx(chainx.CallScript(neoH, "setGasPerBlock", int64(7*gas)), []neotest.Signer{chainx.Signer(3), committeeSigner(w)}, chainx.SysFee(3*gas))
+			})
+		}},
+		{"gas-per-block0", func(w *chainx.World) (txs, error) { // nothing is generated any more: zero mints must be skipped
+			return seq(func() (*transaction.Transaction, error) {
+				return w.N.MakeTx(chainx.CallScript(neoH, "setGasPerBlock", int64(0)), []neotest.Signer{chainx.Signer(3), committeeSigner(w)}, chainx.SysFee(3*gas))
+			})
+		}},
+		{"register-price500", func(w *chainx.World) (txs, error) { // price change, then NEP-27 registrations at the old and the new price
+			return seq(
+				func() (*transaction.Transaction, error) {
+					return w.N.MakeTx(chainx.CallScript(neoH, "setRegisterPrice", int64(500*gas)), []neotest.Signer{chainx.Signer(3), committeeSigner(w)}, chainx.SysFee(3*gas))
+				},
+				func() (*transaction.Transaction, error) {
+					return call(w, []int{3}, 3*gas, gasH, "transfer", acc(3), neoH, int64(1000*gas), pub(3))
+				},
+				func() (*transaction.Transaction, error) {
+					return call(w, []int{3}, 3*gas, gasH, "transfer", acc(3), neoH, int64(500*gas), pub(3))
+				},
+			)
+		}},
+		{"drop1", func(w *chainx.World) (txs, error) { // candidate 1 loses its last votes and is unregistered: the record is dropped
+			return seq(
+				func() (*transaction.Transaction, error) { return call(w, []int{1}, gas, neoH, "vote", acc(1), nil) },
+				func() (*transaction.Transaction, error) { return call(w, []int{2}, gas, neoH, "vote", acc(2), nil) },
+				func() (*transaction.Transaction, error) {
+					return call(w, []int{1}, gas, neoH, "unregisterCandidate", pub(1))
+				},
+			)
+		}},
+		{"reelect1", func(w *chainx.World) (txs, error) { // ... registered and voted again; reward accrual restarts; claim
+			return seq(
+				func() (*transaction.Transaction, error) {
+					return call(w, []int{1}, 1010*gas, neoH, "registerCandidate", pub(1))
+				},
+				func() (*transaction.Transaction, error) { return call(w, []int{1}, gas, neoH, "vote", acc(1), pub(1)) },
+				func() (*transaction.Transaction, error) { return call(w, []int{2}, gas, neoH, "vote", acc(2), pub(1)) },
+			)
+		}},
+		{"claim12", func(w *chainx.World) (txs, error) { // accounts 1 and 2 claim (holder + voter reward) by zero transfers
+			return seq(
+				func() (*transaction.Transaction, error) {
+					return call(w, []int{1}, gas, neoH, "transfer", acc(1), acc(1), int64(0), nil)
+				},
+				func() (*transaction.Transaction, error) {
+					return call(w, []int{2}, gas, neoH, "transfer", acc(2), acc(3), int64(0), nil)
+				},
+			)
+		}},
+		{"spread-votes", func(w *chainx.World) (txs, error) { // five more voters for five different candidates (committee members beyond the validators get votes)
+			fs := []mk{}
+			for i := 4; i <= 6; i++ {
+				fs = append(fs, func() (*transaction.Transaction, error) {
+					return call(w, []int{2}, gas, neoH, "transfer", acc(2), acc(i), int64(3000000), nil)
+				})
+			}
+			for i := 2; i <= 6; i++ {
+				fs = append(fs, func() (*transaction.Transaction, error) { return call(w, []int{i}, gas, neoH, "vote", acc(i), pub(i)) })
+			}
+			return seq(fs...)
+		}},
+		{"block2+recover@1y", func(w *chainx.World) (txs, error) { // (block dated one year ahead) committee recovers the funds of blocked account 2 into the Treasury
+			cs := committeeSigner(w)
+			return seq(
+				func() (*transaction.Transaction, error) {
+					return w.N.MakeTx(chainx.CallScript(polH, "recoverFund", acc(2), neoH), []neotest.Signer{chainx.Signer(3), cs}, chainx.SysFee(3*gas))
+				},
+				func() (*transaction.Transaction, error) {
+					return w.N.MakeTx(chainx.CallScript(polH, "recoverFund", acc(2), gasH), []neotest.Signer{chainx.Signer(3), cs}, chainx.SysFee(3*gas))
+				},
+				func() (*transaction.Transaction, error) { // not blocked: faults
+					return w.N.MakeTx(chainx.CallScript(polH, "recoverFund", acc(1), neoH), []neotest.Signer{chainx.Signer(3), cs}, chainx.SysFee(3*gas))
+				},
+			)
+		}},
 		// ---- Notary deposits (account 2) ----
 		{"n-deposit2-short", func(w *chainx.World) (txs, error) { // smallest allowed till
 			return seq(func() (*transaction.Transaction, error) {
@@ -400,6 +529,32 @@ func ownTemplates() []chainx.Tpl {
 				return call(w, []int{2}, gas, notH, "lockDepositUntil", acc(2), int64(w.N.Height()+4))
 			})
 		}},
+		{"n-lock2-early", func(w *chainx.World) (txs, error) { // till not in the future / below the current one: false
+			return seq(
+				func() (*transaction.Transaction, error) {
+					return call(w, []int{2}, gas, notH, "lockDepositUntil", acc(2), int64(w.N.Height()+1))
+				},
+				func() (*transaction.Transaction, error) {
+					return call(w, []int{2}, gas, notH, "lockDepositUntil", acc(2), int64(w.N.Height()+2))
+				},
+			)
+		}},
+		{"n-deposit5-exact", func(w *chainx.World) (txs, error) { // account 5 deposits exactly the fees of one n-assisted5 transaction
+			probe, err := assisted(w, 5)
+			if err != nil {
+				return nil, err
+			}
+			f := probe.SystemFee + probe.NetworkFee
+			return seq(func() (*transaction.Transaction, error) {
+				return call(w, []int{5}, gas, gasH, "transfer", acc(5), notH, f, []any{nil, int64(w.N.Height() + 2)})
+			})
+		}},
+		{"n-assisted5", func(w *chainx.World) (txs, error) { // fees eat the whole deposit: the item must go
+			if w.N.BC.GetUtilityTokenBalance(notH, acc(5)).Sign() == 0 {
+				return nil, fmt.Errorf("no deposit of account 5")
+			}
+			return seq(func() (*transaction.Transaction, error) { return assisted(w, 5) })
+		}},
 		{"n-setup", func(w *chainx.World) (txs, error) { // designate the notary node (account 4) and deposit with the smallest till
 			return seq(
 				func() (*transaction.Transaction, error) {
@@ -414,16 +569,20 @@ func ownTemplates() []chainx.Tpl {
 			if w.N.BC.GetUtilityTokenBalance(notH, acc(2)).Sign() == 0 {
 				return nil, fmt.Errorf("no deposit of account 2")
 			}
-			return seq(func() (*transaction.Transaction, error) {
-				return w.N.MakeTx(chainx.CallScript(gasH, "transfer", acc(2), acc(3), int64(11), nil),
-					[]neotest.Signer{notarySigner(w), chainx.Signer(2)}, chainx.SysFee(gas),
-					func(t *transaction.Transaction) {
-						t.Signers[0].Scopes = transaction.None
-						t.Attributes = append(t.Attributes, transaction.Attribute{Type: transaction.NotaryAssistedT, Value: &transaction.NotaryAssisted{NKeys: 1}})
-					})
-			})
+			return seq(func() (*transaction.Transaction, error) { return assisted(w, 2) })
 		}},
 	}
+}
+
+// assisted builds a notary-assisted transaction whose sender is the Notary
+// contract and whose fees are charged to the deposit of account payer.
+func assisted(w *chainx.World, payer int) (*transaction.Transaction, error) {
+	return w.N.MakeTx(chainx.CallScript(gasH, "transfer", acc(payer), acc(3), int64(11), nil),
+		[]neotest.Signer{notarySigner(w), chainx.Signer(payer)}, chainx.SysFee(gas),
+		func(t *transaction.Transaction) {
+			t.Signers[0].Scopes = transaction.None
+			t.Attributes = append(t.Attributes, transaction.Attribute{Type: transaction.NotaryAssistedT, Value: &transaction.NotaryAssisted{NKeys: 1}})
+		})
 }
 
 // allInOne: one contract-mediated transaction of account 2 doing a vote, NEO
@@ -448,7 +607,7 @@ func allInOne(w *chainx.World, abort bool) (*transaction.Transaction, error) {
 // it. Where the Notary contract is not deployed yet (the multi families
 // activate Echidna at height 5) its hash is a plain address and "deposit"
 // has no meaning, so these templates are not applicable there.
-var needsNotary = map[string]bool{"notary-deposit": true, "halt-all": true, "fault-all": true}
+var needsNotary = map[string]bool{"notary-deposit": true, "halt-all": true, "fault-all": true, "no-witness": true, "bad-args": true}
 
 func guardNotary(t chainx.Tpl) chainx.Tpl {
 	pairWithNotaryOp := strings.HasPrefix(t.Name, "pair:") && strings.ContainsAny(strings.TrimPrefix(t.Name, "pair:"), "dw")
